@@ -1077,6 +1077,11 @@ class Engine:
         return out
 
     def new_list(self, items, st):
+        h = self.contract.hooks.get('new_list')
+        if h:
+            r = h(self, items, st)
+            if r is not None:
+                return r
         return vlist(items)
 
     def ex_Dict(self, e, st):
